@@ -9,7 +9,7 @@
 From Coq Require Import List NArith ZArith.
 From PB Require Import Base.PBytes Json.JsonUtf8 Json.JsonGrammar Json.JsonNumModel Json.JsonNumP
   Json.JsonLexModel Json.JsonStrP Json.JsonLexP Json.JsonEncModel Json.JsonEncP Json.JsonEncSpec
-  Json.JsonEncGrammarP Json.JsonGrammarP Json.JsonStrict Json.JsonLexCompleteP Json.JsonGrammarCompleteP.
+  Json.JsonEncGrammarP Json.JsonGrammarP Json.JsonStrict Json.JsonLexCompleteP Json.JsonGrammarCompleteP Json.JsonLexExactP.
 Import ListNotations.
 
 (* If reading tokens to EOF succeeds (and at least one token was read) the input is a JSON
@@ -112,6 +112,20 @@ Theorem C21_lexer_accepts_iff_json :
     ((exists toks, read_all s = (toks, None) /\ toks <> []) <-> json_text s).
 Proof. exact lexer_accepts_iff_json. Qed.
 Print Assumptions C21_lexer_accepts_iff_json.
+
+(* The Decoder's language exactly (no domain restriction): an input is read to EOF, with at
+   least one token, iff it is a strict JSON text; and the tokens read are those of the
+   derivation.  (The soundness half replays the simulation argument for the strict grammar,
+   Json/JsonLexStrictP.v.) *)
+Theorem C21_lexer_accepts_exactly_strict_json :
+  forall s, (exists toks, read_all s = (toks, None) /\ toks <> []) <-> (exists ks, stext s ks).
+Proof. exact lexer_accepts_exactly_strict_json. Qed.
+Print Assumptions C21_lexer_accepts_exactly_strict_json.
+
+Theorem C21_lexer_tokens_are_derivation :
+  forall s toks, read_all s = (toks, None) -> toks <> [] -> stext s (map atok_of toks).
+Proof. exact lexer_tokens_are_derivation. Qed.
+Print Assumptions C21_lexer_tokens_are_derivation.
 
 (* indent_invariant, full statement: every rendering (any indent of spaces/tabs, any detrand
    stream) is read back by the Decoder to EOF as the token sequence of the tree, hence parses
